@@ -205,6 +205,11 @@ def discharge(engine, obligations, procs=None, want_models=True, log=None):
         if ob.status is None:
             ob.status = "unknown"
             ob.backend = ob.backend or "z3-5.1"
+        keep = os.environ.get("PYVC_KEEP_SMT")
+        if keep and ob.status != "proved" and hasattr(ob, "smt2"):
+            os.makedirs(keep, exist_ok=True)
+            with open(os.path.join(keep, "".join(ch if ch.isalnum() else "_" for ch in ob.name)[-120:] + f"_{i}.smt2"), "w") as f:
+                f.write(ob.smt2)
         if ob.status == "proved" and hasattr(ob, "smt2"):
             del ob.smt2
         for pth in (full.get(i), pruned.get(i)):
